@@ -10,6 +10,7 @@ import (
 	"os"
 	"path/filepath"
 	"strings"
+	"sync"
 	"time"
 
 	"github.com/bmeg/grip/config"
@@ -42,6 +43,7 @@ type GripServer struct {
 	gripql.UnimplementedEditServer
 	gripql.UnimplementedJobServer
 	gripql.UnimplementedConfigureServer
+	mu       sync.RWMutex             //guards dbs, graphMap, schemas and mappings
 	dbs      map[string]gdbi.GraphDB  //graph database drivers
 	graphMap map[string]string        //mapping from graph name to graph database driver
 	conf     *config.Config           //global configuration
@@ -141,6 +143,8 @@ func StartDriver(d config.DriverConfig, sources map[string]gripper.GRIPSourceCli
 }
 
 func (server *GripServer) getGraphDB(graph string) (gdbi.GraphDB, error) {
+	server.mu.RLock()
+	defer server.mu.RUnlock()
 	if driverName, ok := server.graphMap[graph]; ok {
 		if gdb, ok := server.dbs[driverName]; ok {
 			return gdb, nil
@@ -151,6 +155,32 @@ func (server *GripServer) getGraphDB(graph string) (gdbi.GraphDB, error) {
 		}
 	}
 	return nil, fmt.Errorf("driver not found")
+}
+
+// listDBs returns a snapshot of the driver map
+func (server *GripServer) listDBs() map[string]gdbi.GraphDB {
+	server.mu.RLock()
+	defer server.mu.RUnlock()
+	out := make(map[string]gdbi.GraphDB, len(server.dbs))
+	for k, v := range server.dbs {
+		out[k] = v
+	}
+	return out
+}
+
+// getCachedSchema looks up the cached schema of a graph
+func (server *GripServer) getCachedSchema(graph string) (*gripql.Graph, bool) {
+	server.mu.RLock()
+	defer server.mu.RUnlock()
+	schema, ok := server.schemas[graph]
+	return schema, ok
+}
+
+// setCachedSchema stores the cached schema of a graph
+func (server *GripServer) setCachedSchema(graph string, schema *gripql.Graph) {
+	server.mu.Lock()
+	defer server.mu.Unlock()
+	server.schemas[graph] = schema
 }
 
 // Serve starts the server and does not block. This will open TCP ports
@@ -402,19 +432,21 @@ func (server *GripServer) Serve(pctx context.Context) error {
 	log.Infoln("HTTP proxy connecting to localhost:" + server.conf.Server.HTTPPort)
 
 	// load existing schemas from db
-	for _, gdb := range server.dbs {
+	for _, gdb := range server.listDBs() {
 		for _, graph := range gdb.ListGraphs() {
 			if isSchema(graph) {
 				log.WithFields(log.Fields{"graph": graph}).Debug("Loading existing schema into cache")
 				schema, err := server.getGraph(graph)
 				if err == nil {
-					server.schemas[strings.TrimSuffix(graph, schemaSuffix)] = schema
+					server.setCachedSchema(strings.TrimSuffix(graph, schemaSuffix), schema)
 				}
 			} else if isMapping(graph) {
 				log.WithFields(log.Fields{"graph": graph}).Debug("Loading existing mapping into cache")
 				mapping, err := server.getGraph(graph)
 				if err == nil {
+					server.mu.Lock()
 					server.mappings[strings.TrimSuffix(graph, mappingSuffix)] = mapping
+					server.mu.Unlock()
 				}
 			}
 		}
@@ -438,7 +470,7 @@ func (server *GripServer) Serve(pctx context.Context) error {
 	}
 
 	log.Infoln("closing database...")
-	for _, gdb := range server.dbs {
+	for _, gdb := range server.listDBs() {
 		err = gdb.Close()
 		if err != nil {
 			log.Errorln("db.Close() error:", err)
